@@ -41,6 +41,7 @@ def fmtPacket : Packet → String
   | .msg m => "M " ++ fmtMsg m
   | .bundle t ms =>
     "B " ++ (match t with | none => "N" | some r => fmtRat r) ++ " " ++ " ;| ".intercalate (ms.map fmtMsg)
+  | .sync => "S"
 
 def fmtStatus : Status → String
   | .ok => "ok"
@@ -179,6 +180,8 @@ def parseOp (line : String) : Option Op :=
   | ["bind"] => some .bind
   | ["end"] => some .endBind
   | ["raise"] => some .raise
+  | ["sync"] => some .sync
+  | ["register", n] => do some (.register (← hOf 'n' n))
   | "synth" :: name :: tgt :: act :: r => do
     some (.synth false name (← parseTarget tgt) (← parseAction act) (← one r))
   | "synthp" :: name :: tgt :: act :: r => do
